@@ -206,6 +206,14 @@ TsigAccept(msg, reqMAC, timersOnly, now, SecretOf(_)) ==
 (* signs and demands a TSIG on every envelope, which C15 states, so that is   *)
 (* the session modelled.)                                                     *)
 
+(* TSIG error responses (RFC 8945 5.2.3, 5.3.2): a server that finds the time   *)
+(* signed outside the window (BADTIME) or the MAC too short for its policy      *)
+(* (BADTRUNC) answers with a SIGNED error -- an ordinary first response: the    *)
+(* session starts on the MAC of the request AS RECEIVED although that request   *)
+(* did not verify, and the variables digested include the error code and the    *)
+(* other data (the server's clock for BADTIME).  For BADSIG / BADKEY the        *)
+(* response carries a TSIG without MAC ("unsigned"): nothing to verify; what    *)
+(* the library sends there is recorded, not judged.                             *)
 Session(reqMAC) == [prev |-> reqMAC, timers |-> FALSE]
 
 \* sender: sign `body' with variables t under `secret'; result: next state and the octets sent
